@@ -4,6 +4,7 @@
  * node the client still holds.  Node ids are the least free positive integer (as in MCRefHeap). */
 #include "vhrt.h"
 #include "json.h"
+#include "json_patch.h"
 #include "json_pointer.h"
 #include <stdlib.h>
 #include <string.h>
@@ -81,6 +82,7 @@ typedef struct
 	long long newids[256];
 	int nnew;
 	int ptype[4], pval[4], npath;
+	int ftype[4], fval[4], nfrom;
 } call_t;
 
 static void emit(call_t *c)
@@ -102,6 +104,15 @@ static void emit(call_t *c)
 		ev_open_obj(NULL);
 		ev_str("t", c->ptype[j] == 0 ? "k" : c->ptype[j] == 1 ? "i" : "-");
 		ev_int("v", c->pval[j]);
+		ev_close_obj();
+	}
+	ev_close_arr();
+	ev_open_arr("from");
+	for (int j = 0; j < c->nfrom; j++)
+	{
+		ev_open_obj(NULL);
+		ev_str("t", c->ftype[j] == 0 ? "k" : c->ftype[j] == 1 ? "i" : "-");
+		ev_int("v", c->fval[j]);
 		ev_close_obj();
 	}
 	ev_close_arr();
@@ -369,6 +380,57 @@ static void op_ptrset(int a, int b, const int *ptype, const int *pval, int np, i
 	after_give(b, c->ret);
 	emit(c);
 }
+/* json_patch_apply in place on node a with a one-operation patch: remove (nf = 0) or move */
+static void path_string(char *out, const int *pt, const int *pv, int np)
+{
+	out[0] = 0;
+	for (int j = 0; j < np; j++)
+	{
+		char seg[32];
+		if (pt[j] == 0)
+			snprintf(seg, sizeof seg, "/k%d", pv[j]);
+		else if (pt[j] == 1)
+			snprintf(seg, sizeof seg, "/%d", pv[j]);
+		else
+			snprintf(seg, sizeof seg, "/-");
+		strcat(out, seg);
+	}
+}
+static void op_patch(int a, const int *ft, const int *fv, int nf, const int *pt, const int *pv, int np)
+{
+	call_t *c = mk(nf ? "pmove" : "premove");
+	c->a = a;
+	c->npath = np;
+	c->nfrom = nf;
+	for (int j = 0; j < np; j++)
+	{
+		c->ptype[j] = pt[j];
+		c->pval[j] = pv[j];
+	}
+	for (int j = 0; j < nf; j++)
+	{
+		c->ftype[j] = ft[j];
+		c->fval[j] = fv[j];
+	}
+	char path[128], from[128];
+	path_string(path, pt, pv, np);
+	path_string(from, ft, fv, nf);
+	/* the patch document is the client's own, untracked, and released before the event is written */
+	json_object *patch = json_object_new_array();
+	json_object *op = json_object_new_object();
+	json_object_object_add(op, "op", json_object_new_string(nf ? "move" : "remove"));
+	json_object_object_add(op, "path", json_object_new_string(path));
+	if (nf)
+		json_object_object_add(op, "from", json_object_new_string(from));
+	json_object_array_add(patch, op);
+	json_object *base = node[a];
+	int rc = json_patch_apply(NULL, patch, &base, NULL);
+	json_object_put(patch);
+	c->ret = rc == 0 ? 0 : rc < 0 ? -1 : -8;
+	if (base != node[a])
+		c->ret = -9; /* a non-empty path never replaces or drops the document itself */
+	emit(c);
+}
 static void op_end(void)
 {
 	/* release every reference the client holds, then nothing may remain allocated */
@@ -388,6 +450,8 @@ static void op_end(void)
 	ev_int("deflt", 0);
 	ev_ints("newids", dead, 0);
 	ev_open_arr("path");
+	ev_close_arr();
+	ev_open_arr("from");
 	ev_close_arr();
 	ev_int("ret", 0);
 	ev_ints("dead", dead, 0);
@@ -425,7 +489,7 @@ static int replay(const char *path, long start)
 		{
 			char op = tok[0];
 			char *p = tok + 1;
-			int v[12], n = 0;
+			int v[24], n = 0;
 			char kind = 'l';
 			if (op == 'N')
 			{
@@ -434,7 +498,7 @@ static int replay(const char *path, long start)
 				kind = *p;
 			}
 			else
-				while (n < 12)
+				while (n < 24)
 				{
 					while (*p == ' ')
 						p++;
@@ -466,6 +530,34 @@ static int replay(const char *path, long start)
 					pv[j] = v[4 + 2 * j];
 				}
 				op_ptrset(v[0], v[1], pt, pv, np, (int)(idx & 1));
+				break;
+			}
+			case 'R':
+			{
+				int pt[4], pv[4], np = v[1];
+				for (int j = 0; j < np && j < 4; j++)
+				{
+					pt[j] = v[2 + 2 * j];
+					pv[j] = v[3 + 2 * j];
+				}
+				op_patch(v[0], NULL, NULL, 0, pt, pv, np);
+				break;
+			}
+			case 'M':
+			{
+				int ft[4], fv[4], pt[4], pv[4], nf = v[1];
+				for (int j = 0; j < nf && j < 4; j++)
+				{
+					ft[j] = v[2 + 2 * j];
+					fv[j] = v[3 + 2 * j];
+				}
+				int np = v[2 + 2 * nf];
+				for (int j = 0; j < np && j < 4; j++)
+				{
+					pt[j] = v[3 + 2 * nf + 2 * j];
+					pv[j] = v[4 + 2 * nf + 2 * j];
+				}
+				op_patch(v[0], ft, fv, nf, pt, pv, np);
 				break;
 			}
 			default: fprintf(stderr, "bad op %s\n", tok); return 2;
@@ -549,6 +641,101 @@ static int pick_give(int a)
 	}
 	return 0;
 }
+static int unfolded_size(json_object *o, int depth)
+{
+	int n = 1;
+	if (!o)
+		return 0;
+	if (depth > 40)
+		return 100000;
+	if (json_object_get_type(o) == json_type_object)
+	{
+		json_object_object_foreach(o, key, val)
+		{
+			(void)key;
+			n += unfolded_size(val, depth + 1);
+			if (n > 100000)
+				return n;
+		}
+	}
+	else if (json_object_get_type(o) == json_type_array)
+		for (size_t j = 0; j < json_object_array_length(o) && n <= 100000; j++)
+			n += unfolded_size(json_object_array_get_idx(o, j), depth + 1);
+	return n;
+}
+/* every node below o is linked exactly once (no sharing) */
+static int count_links(json_object *root, json_object *target)
+{
+	int n = 0;
+	if (!root)
+		return 0;
+	if (json_object_get_type(root) == json_type_object)
+	{
+		json_object_object_foreach(root, key, val)
+		{
+			(void)key;
+			if (val)
+				n += (val == target) + count_links(val, target);
+		}
+	}
+	else if (json_object_get_type(root) == json_type_array)
+		for (size_t j = 0; j < json_object_array_length(root); j++)
+		{
+			json_object *val = json_object_array_get_idx(root, j);
+			if (val)
+				n += (val == target) + count_links(val, target);
+		}
+	return n;
+}
+static int is_tree(json_object *root)
+{
+	for (int x = 1; x <= MAXID; x++)
+		if (node[x] && count_links(root, node[x]) > 1)
+			return 0;
+	return 1;
+}
+/* walk up to *np existing steps down from o; tokens of the steps taken */
+static void rand_walk(json_object *o, int *pt, int *pv, int *np)
+{
+	int want = *np, n = 0;
+	while (n < want && o)
+	{
+		if (json_object_get_type(o) == json_type_object && json_object_object_length(o) > 0)
+		{
+			int j = (int)vh_below((uint32_t)json_object_object_length(o)), i = 0;
+			json_object *next = NULL;
+			int found = 0;
+			json_object_object_foreach(o, key, val)
+			{
+				if (i++ == j)
+				{
+					if (key[0] != 'k')
+						break; /* members created through pointer tokens ("0", "-"): not walked */
+					pt[n] = 0;
+					pv[n] = atoi(key + 1);
+					next = val;
+					found = 1;
+					break;
+				}
+			}
+			if (!found)
+				break;
+			n++;
+			o = next;
+		}
+		else if (json_object_get_type(o) == json_type_array && json_object_array_length(o) > 0)
+		{
+			int j = (int)vh_below((uint32_t)json_object_array_length(o));
+			pt[n] = 1;
+			pv[n] = j;
+			n++;
+			o = json_object_array_get_idx(o, (size_t)j);
+		}
+		else
+			break;
+	}
+	*np = n;
+}
 static int drive(int start, int nexec, int nops)
 {
 	const char *seed = getenv("VERIF_SEED");
@@ -624,10 +811,55 @@ static int drive(int start, int nexec, int nops)
 				if ((a = pick_held(0)))
 					op_setud(a, 1000 + x % 7 * 1000 + i);
 			}
-			else if (r < 94)
+			else if (r < 93)
 			{
-				if ((a = pick_held(0)) && nlive() < 150)
+				/* (a copy unfolds shared nodes: bound the size of the copy, not only the number of live nodes) */
+				if ((a = pick_held(0)) && nlive() < 150 && unfolded_size(node[a], 0) <= 100)
 					op_copy(a, (int)vh_below(2));
+			}
+			else if (r < 97)
+			{
+				/* patch remove / move in place; only on trees (a node linked twice below a could be moved into itself) */
+				if ((a = pick_held(3)) && is_tree(node[a]))
+				{
+					int ft[3], fv[3], pt[3], pv[3], nf = (int)vh_below(3), np = 1 + (int)vh_below(2);
+					rand_walk(node[a], ft, fv, &nf);
+					if (vh_below(3) == 0 || nf == 0)
+					{
+						if (nf == 0)
+						{
+							/* remove only: a location that may or may not exist */
+							pt[0] = (int)vh_below(2);
+							pv[0] = pt[0] == 0 ? 1 + (int)vh_below(4) : (int)vh_below(3);
+							op_patch(a, NULL, NULL, 0, pt, pv, 1);
+						}
+						else
+							op_patch(a, NULL, NULL, 0, ft, fv, nf);
+					}
+					else
+					{
+						np = (int)vh_below(2);
+						rand_walk(node[a], pt, pv, &np);
+						/* last token of the target: a new or existing member / index / "-" */
+						pt[np] = (int)vh_below(3);
+						pv[np] = pt[np] == 0 ? 1 + (int)vh_below(4) : (int)vh_below(3);
+						np++;
+						if (vh_below(8) == 0)
+						{
+							/* onto itself / into its own child */
+							memcpy(pt, ft, sizeof(int) * (size_t)nf);
+							memcpy(pv, fv, sizeof(int) * (size_t)nf);
+							np = nf;
+							if (vh_below(2) && np < 3)
+							{
+								pt[np] = 0;
+								pv[np] = 1;
+								np++;
+							}
+						}
+						op_patch(a, ft, fv, nf, pt, pv, np);
+					}
+				}
 			}
 			else
 			{
